@@ -54,7 +54,7 @@ class World:
         })
         self.Snap = TRef("Snap", self.SnapS, attrs={"paths": self._a_paths},
                          methods={"inode": self._m_inode, "path": self._m_path, "mtime": self._m_get(self.mt, TReal, "mtime"),
-                                  "size": self._m_get(self.sz, TInt, "size"), "isdir": self._m_get(self.isd, TBool, "isdir")})
+                                  "size": self._m_get(self.sz, TInt, "size"), "isdir": self._m_get(self.isd, TBool, "isdir"), "stat_info": self._m_stat_info})
 
     def _sfx(self):
         return "" if ground.SCOPE is None else f"_fin{ground.SCOPE}"
@@ -74,6 +74,18 @@ class World:
     def _m_path(self, ex, r, args, kw, node):
         k = self.Key.unwrap(args[0])
         return VOpt(self.has(r.t, k), self.Path.wrap(self.pathof(r.t, k)))
+
+    def stat_matches(self, st, s, p):
+        """the stat record st is the one the view of snapshot s is defined by at path p"""
+        return z3.And(self.ino(s, p) == self.st_ino(st), self.dev(s, p) == self.st_dev(st), self.mt(s, p) == self.st_mtime(st), self.sz(s, p) == self.st_size(st),
+                      self.isd(s, p) == self.s_isdir(self.st_mode(st)))
+
+    def _m_stat_info(self, ex, r, args, kw, node):
+        p = self.Path.unwrap(args[0])
+        ex.implicit_exc("KeyError", self.paths(r.t)[p], ex.site(node))
+        st = ex.fresh_term(self.StatS, "stat_info")
+        ex.assume(self.stat_matches(st, r.t, p))
+        return self.Stat.wrap(st)
 
     def _m_get(self, f, ty, nm):
         def h(ex, r, args, kw, node):
@@ -332,7 +344,7 @@ class Accessor(FnSpec):
         ex.assume(z3.ForAll([k], z3.And(W.has(s, k) == ip.dom[k], W.pathof(s, k) == ip.val[k])))
         self.arg = None
         env = {"self": self.me}
-        if self.name in ("inode", "isdir", "mtime", "size"):
+        if self.name in ("inode", "isdir", "mtime", "size", "stat_info"):
             self.arg = ex.fresh_term(W.PathS, "path")
             env["path"] = W.Path.wrap(self.arg)
         elif self.name == "path":
@@ -360,13 +372,16 @@ class Accessor(FnSpec):
             f, ty = {"isdir": (W.isd, TBool), "mtime": (W.mt, TReal), "size": (W.sz, TInt)}[n]
             ex.oblige("post[in-paths]", W.paths(s)[a])
             ex.oblige(f"post[{n}=view]", ty.unwrap(result) == f(s, a))
+        elif n == "stat_info":
+            ex.oblige("post[in-paths]", W.paths(s)[a])
+            ex.oblige("post[stat_info=the record the view is defined by]", W.stat_matches(W.Stat.unwrap(result), s, a))
         elif n == "__sub__":
             ok = isinstance(result, VOpaque) and result.kind == "diff" and z3.is_true(z3.simplify(z3.And(result.data[0] == a, result.data[1] == self.me_term)))
             ex.oblige("post[sub=Diff(previous,self)]", bool(ok))
 
     def post_raise(self, ex, exc, site):
         W = self.W
-        if exc.cls == "KeyError" and self.name in ("inode", "isdir", "mtime", "size"):
+        if exc.cls == "KeyError" and self.name in ("inode", "isdir", "mtime", "size", "stat_info"):
             ex.oblige("raises[KeyError only when path not in snapshot]", z3.Not(W.paths(self.s)[self.arg]))
         else:
             ex.oblige(f"no-uncaught[{exc.cls}@{site}]", False, kind="exception")
@@ -414,7 +429,7 @@ class EmptyAcc(FnSpec):
 
 def make_specs():
     W = World()
-    return [DiffInit(W, "wf0"), DiffInit(W, "laws"), DiffInit(W, "dev")] + [Accessor(W, n) for n in ("paths", "inode", "path", "isdir", "mtime", "size")] + [SubSpec(W), EmptyAcc(W, "path"), EmptyAcc(W, "paths")]
+    return [DiffInit(W, "wf0"), DiffInit(W, "laws"), DiffInit(W, "dev")] + [Accessor(W, n) for n in ("paths", "inode", "path", "isdir", "mtime", "size", "stat_info")] + [SubSpec(W), EmptyAcc(W, "path"), EmptyAcc(W, "paths")]
 
 
 def lemmas():
